@@ -149,7 +149,32 @@ var FilterContentsOdd = []string{
 
 // SpecialContents: short contents with a meaning to formatters, parsers and
 // brokers (all valid UTF-8, no NUL: legal in every MQTT string).
-var SpecialContents = []string{" ", "\t", "  ", " a ", "\n", "%", "%d%s", "/", "#", "+", "$", "a b c", "\"", "{}", "0", "-1", "..", "a,b"}
+var SpecialContents = func() []string {
+	s := []string{" ", "\t", "  ", " a ", "\n", "%", "%d%s", "/", "#", "+", "$", "a b c", "\"", "{}", "0", "-1", "..", "a,b"}
+	seen := map[string]bool{}
+	for _, c := range s {
+		seen[c] = true
+	}
+	// every ASCII punctuation character on its own (an opening bracket
+	// without its closing one, a lone colon, ...)
+	for c := byte('!'); c <= '~'; c++ {
+		if c >= '0' && c <= '9' || c >= 'A' && c <= 'Z' || c >= 'a' && c <= 'z' {
+			continue
+		}
+		if !seen[string(c)] {
+			s = append(s, string(c))
+			seen[string(c)] = true
+		}
+	}
+	// short structured contents, and contents with white space at either end
+	for _, c := range []string{"[::1]:1883", "host:1883", "[a", "a]", "a=b", "k: v", "<a>", "a;b", "a@b", "\\n", "\r", "\r\n", "a\n", "a\r\n", "a ", " a", "a\tb", "a  b"} {
+		if !seen[c] {
+			s = append(s, c)
+			seen[c] = true
+		}
+	}
+	return s
+}()
 
 // AllContents: the special contents followed by the mined ones.
 func AllContents() []string {
